@@ -507,13 +507,6 @@ func c08Cursor(d *c08Doc) protocol.Position {
 	return protocol.Position{Line: uint32(line), Character: ch}
 }
 
-// c08CursorConcrete: every line and every character 0..len+1, case split.
-func c08CursorConcrete(d *c08Doc) protocol.Position {
-	line := zzverif.Choice("line", len(d.lens))
-	ch := zzverif.Choice("ch", d.lens[line]+2)
-	return protocol.Position{Line: uint32(line), Character: uint32(ch)}
-}
-
 // ---------------- known-finding classes (cause keyed) ----------------
 //
 // The server reports columns in "code space": rune columns of the syntax tree plus whatever
